@@ -372,7 +372,29 @@ func execGcm(opsS string) (res h.Result) {
 	okSend = okSend && send(7) // the victim
 	okSend = okSend && send(9)
 	back := recv.waitFor(0, 9, okSend)
-	time.Sleep(150 * time.Millisecond) // what was injected BEFORE the sentinel has been handled when it is out; let the readers run
+	// what was injected BEFORE the sentinel has been dispatched when the sentinel is out, but the readers of
+	// the other subscriber channels may not have run yet: look (bounded) for as many Pongs as type-flipping
+	// forgeries were written — this only decides how long to look
+	wantPong := 0
+	for _, op := range ops {
+		if op == "P" || op == "B" {
+			wantPong++
+		}
+	}
+	for t0 := time.Now(); time.Since(t0) < 3*time.Second; time.Sleep(10 * time.Millisecond) {
+		recv.mu.Lock()
+		n := 0
+		for _, d := range recv.got {
+			if d.t == 1 {
+				n++
+			}
+		}
+		recv.mu.Unlock()
+		if n >= wantPong {
+			break
+		}
+	}
+	time.Sleep(100 * time.Millisecond)
 	alive := recv.alive()
 	recv.mu.Lock()
 	ping := map[int]int{}
